@@ -95,6 +95,20 @@ Theorem C03_unique_exact_below_limit_partial :
   s_size_as_is r = card (s_elems r) + b2z (s_zero r).
 Proof. exact unique_exact_below_limit. Qed.
 
+(* "…with count, min, max, sum and sum-of-squares equal to the merge…" also depends on the skip flags the row writer
+   takes from its per-insert metric cache: the repaired cache answers every lookup, after any earlier lookups, with the
+   flags of that very metric (built-in, journal or unknown) … *)
+Theorem C03_skip_flags_are_the_metrics_own_repaired :
+  forall resolve, res_flags (resolve 0) = skips0 ->
+  forall ids id, mc_run true mcache0 (map (fun i => (i, resolve i)) (ids ++ [id])) = res_flags (resolve id).
+Proof. intros resolve Z ids id. exact (cache_fixed_exact resolve ids mcache0 id (cache0_inv resolve Z)). Qed.
+(* … REFUTED for the cache as it is (F-C03c): a metric unknown to the journal, written twice in a row after a metric
+   with skip flags, loses its sum of squares / min / max host on the second row *)
+Theorem C03_skip_flags_are_the_metrics_own_refuted :
+  exists resolve ids id, res_flags (resolve 0) = skips0 /\
+    mc_run false mcache0 (map (fun i => (i, resolve i)) (ids ++ [id])) <> res_flags (resolve id).
+Proof. exact cache_faithful_refuted. Qed.
+
 (* ---------- non-vacuity ---------- *)
 
 Definition ex_row : brow :=
@@ -146,6 +160,11 @@ Proof.
   eexists. split; [vm_compute; reflexivity|]. repeat split; try (vm_compute; reflexivity).
   repeat constructor; vm_compute; intuition discriminate.
 Qed.
+
+Example C03_nonvacuous_cache :
+  res_flags (ex_resolve 0) = skips0 /\
+  mc_run true mcache0 (map (fun i => (i, ex_resolve i)) ([5; 107] ++ [107])) = {| sk_max := true; sk_min := true; sk_sq := true |}.
+Proof. split; reflexivity. Qed.
 
 Example C03_nonvacuous_unique :
   let r := fold_left (s_insert_hash uniques_max_size) [5; 0; 5; 77] sk0 in
